@@ -10,6 +10,7 @@ from omegaconf import DictConfig
 from experimaestro.core.objects import Config
 import fasteners
 import threading
+import time
 import os.path
 from watchdog.events import FileSystemEventHandler
 from typing import Dict
@@ -133,20 +134,30 @@ class TokenFile:
                 process = None
                 with fasteners.InterProcessLock(lockpath):
                     try:
-                        s = ""
-                        while s == "":
+                        # The file is written under the job lock, which only
+                        # excludes other processes: it can be seen empty while
+                        # a thread of this process writes it, but not for long
+                        s = pidpath.read_text()
+                        deadline = time.time() + 1
+                        while s == "" and time.time() < deadline:
+                            time.sleep(0.01)
                             s = pidpath.read_text()
                     except FileNotFoundError:
                         logger.debug("Job already finished (no PID file)")
                     else:
-                        logger.info("Loading job watcher from definition")
-                        from experimaestro.connectors import Process
+                        if s == "":
+                            # The scheduler that created the file died before
+                            # writing it: there is no process to wait for
+                            logger.warning("Ignoring the empty PID file %s", pidpath)
+                        else:
+                            logger.info("Loading job watcher from definition")
+                            from experimaestro.connectors import Process
 
-                        # FIXME: not always localhost...
-                        from experimaestro.connectors.local import LocalConnector
+                            # FIXME: not always localhost...
+                            from experimaestro.connectors.local import LocalConnector
 
-                        connector = LocalConnector.instance()
-                        process = Process.fromDefinition(connector, json.loads(s))
+                            connector = LocalConnector.instance()
+                            process = Process.fromDefinition(connector, json.loads(s))
 
                     if process is None:
                         # Process is None: process has finished. The job cannot be
